@@ -7,6 +7,7 @@ C10 — numbers mean what they say.  Theorems over `Model/Num.lean` and the gene
 
 * literals: `lit_accept_iff`, `lit_accept_value`, `lit_reject_kind`, `lit_value`, `lit_leading_zeros`,
   `neg_lit_value`, `neg_lit_min_unwritable`
+* patterns: `pat_unsuffixed_sound`, `pat_unsuffixed_rejects`, `pat_constraint_needed`
 * tables:   `num_types_consistent`, `lit_forms_consistent`, `pat_forms_consistent`, `to_string_covers`, `to_string_verbs_ok`
 * operators: `opmap_faithful_bin`, `opmap_faithful_un` (for every operator of the generated map, every
   width and signedness, all operand values), spec-pinning lemmas `wrap_mod`, `wrap_signed_range`, `div_trunc`,
@@ -738,6 +739,50 @@ theorem pat_forms_consistent :
     (Gen.NumTypes.intTypes.all fun r =>
       patPrimOf Gen.NumTypes.builderPatUnsuffixed r.1 == some (r.2.2.2.1, r.2.1)) = true := by
   decide
+
+/-- **pat_unsuffixed_sound** — an unsuffixed integer pattern that is accepted denotes the written number at the
+    scrutinee's final type, whatever type it was validated at and whether or not the scrutinee's type was known then:
+    acceptance forces `target = final` (the unconditional `TypeEqual` constraint of `check_pat_int`), so the
+    diagnostics-free rebuild in `tast_builder.rs` happens at the type the range check was made at -/
+theorem pat_unsuffixed_sound (ut uf : Bool) (target final : IntTy) (s : List Char) (hs : IsDigits s) (v : Int)
+    (h : patUnsufAccept ut uf target final s = some v) : v = (decVal s : Int) ∧ final.InRange v := by
+  unfold patUnsufAccept at h
+  split at h
+  next w hw =>
+    split at h
+    next heq =>
+      subst heq
+      have hr : target.InRange (decVal s : Int) := (lit_accept_iff ut target s hs).mp ⟨w, hw⟩
+      obtain ⟨w', hw'⟩ := (lit_accept_iff uf target s hs).mpr hr
+      obtain ⟨hv, hb⟩ := lit_accept_value uf target s hs w' hw'
+      simp only [Option.some.injEq] at h
+      rw [← h, hb, hv]
+      exact ⟨rfl, hr⟩
+    next => cases h
+  next => cases h
+
+/-- an out-of-range unsuffixed pattern is never accepted, at a known or an inferred scrutinee type -/
+theorem pat_unsuffixed_rejects (ut uf : Bool) (target final : IntTy) (s : List Char) (hs : IsDigits s)
+    (h : ¬ final.InRange (decVal s : Int)) : patUnsufAccept ut uf target final s = none := by
+  cases hres : patUnsufAccept ut uf target final s with
+  | none => rfl
+  | some v =>
+    obtain ⟨hv, hr⟩ := pat_unsuffixed_sound ut uf target final s hs v hres
+    rw [hv] at hr
+    exact absurd hr h
+
+/-- **pat_constraint_needed** — why the constraint must not be skipped for a scrutinee whose type is still a type
+    variable: the literal is then validated at `int32` (`patTarget none`), and rebuilding it at the inferred type
+    without diagnostics turns `256` on a `uint8` scrutinee and `300` on an `int8` scrutinee into `0` -/
+theorem pat_constraint_needed :
+    patTarget none = "TInt32" ∧
+    checkLit false ⟨true, 32⟩ "256".toList = .accept 256 ∧ builderValue true ⟨false, 8⟩ "256".toList = 0 ∧
+    checkLit false ⟨true, 32⟩ "300".toList = .accept 300 ∧ builderValue false ⟨true, 8⟩ "300".toList = 0 ∧
+    patUnsufAccept false true ⟨true, 32⟩ ⟨false, 8⟩ "256".toList = none := by
+  decide
+
+example : patUnsufAccept false false ⟨true, 32⟩ ⟨true, 32⟩ "300".toList = some 300 := by decide
+example : patUnsufAccept true true ⟨false, 8⟩ ⟨false, 8⟩ "255".toList = some 255 := by decide
 
 /-- every numeric type has its `*_to_string` helper, taking a parameter of that Go type -/
 theorem to_string_covers :
